@@ -130,7 +130,7 @@ func drawCase(t *rapid.T, maxOps int) Case {
 	c.NoSchema = avoid && (rec.IsKnown(sigLazyTypes) || rec.IsKnown(sigParserSwap))
 	c.NoRedelete = avoid && rec.IsKnown(sigRedeletePanic)
 	c.NoIndexMerge = avoid && rec.IsKnown(sigMergeCorruptedIndex)
-	c.NoIndex = avoid && (rec.IsKnown(sigIndexWriteSkew) || rec.IsKnown(sigIndexStaleDoc))
+	c.NoIndex = avoid && (rec.IsKnown(sigIndexWriteSkew) || rec.IsKnown(sigIndexStaleDoc) || rec.IsKnown(sigIndexLostUpdate))
 	c.NoRepPush = avoid && rec.IsKnown(sigPushHeadsPanic)
 	if avoid && c.SharedTxn && (rec.IsKnown(sigStoreBypass) || rec.IsKnown(sigTxnCallbacks)) {
 		// the wrapper's mutex is bypassed on every store access: without it no shared transaction
